@@ -98,7 +98,8 @@ CHECKS.update({
              "insert / delete; every OrderedSet operation (add, remove, membership, length, order_first/last/before/after) keeps table "
              "and list consistent and realises the reference list model (membership unchanged by re-ordering, the item at the stated "
              "place, all other items in their relative order), raising KeyError / ValueError exactly in the stated cases without "
-             "modifying anything. The Deb822Dict layer on top (case-insensitive key objects, value dictionary, sort_fields, copy, "
+             "modifying anything; the key class _CaseInsensitiveString compares and hashes by the lower-cased text and prints the text as "
+             "written. The Deb822Dict layer on top (its use of the key objects, value dictionary, sort_fields, copy, "
              "iteration) is decided by a bounded stand-in: operation histories on real Deb822 mappings from five kinds of starting "
              "state against a reference list model.",
         technique="contract-based deductive verification (heap as arrays, ghost sequence and position map, representation invariants; "
